@@ -407,6 +407,7 @@ structure Stage where
   pend : List Val := []      -- yielded by `BODY`, not yet handed over
   mode : Mode := .run
   inq : List Resp := []      -- eager stages: upstream answers fetched ahead, oldest first
+  upDone : Bool := false     -- upstream has answered StopIteration / raised: it is never pulled again
   recv : Nat := 0            -- ghost: upstream answers (values / the error) taken so far
   hand : Nat := 0            -- ghost: answers (values / an error) handed downstream so far
 
@@ -433,9 +434,10 @@ def Src.next (s : Src) : Resp × Src :=
       | Option.none => (.done, { s with ended := true })
       | some e => (.err e, { s with ended := true, hand := s.hand + 1 })
 
-/-- may this stage fetch one more upstream answer ahead of demand? -/
+/-- may this stage's worker thread fetch one more upstream answer ahead of demand?  (Also while an
+    exception of the body is on its way out: the worker only stops once the generator is finalised.) -/
 def Stage.mayPrefetch (g : Stage) : Bool :=
-  g.mode == .run && decide (g.inq.length < lookahead g.op) && g.inq.all Resp.isVal
+  g.mode != .stop && !g.upDone && decide (g.inq.length < lookahead g.op)
 
 /-- the stage takes upstream answer `r` (`r ≠ fuel`) and runs its body on it -/
 def Stage.take (g : Stage) (r : Resp) : Stage :=
@@ -449,8 +451,9 @@ def Stage.take (g : Stage) (r : Resp) : Stage :=
   | .err e => { g with mode := .fail e }
   | .fuel => g
 
+/-- bookkeeping for an answer `r` just received from upstream -/
 def Stage.noteRecv (g : Stage) (r : Resp) : Stage :=
-  if r.counts then { g with recv := g.recv + 1 } else g
+  { g with recv := if r.counts then g.recv + 1 else g.recv, upDone := g.upDone || !r.isVal }
 
 /-- one `next()` on the outermost stage of `stages` (outermost first; `[]` = the source) -/
 def next : Nat → List Stage → World → Resp × List Stage × World
